@@ -649,6 +649,8 @@ class ProtoGen:
             if low in self.json_seen.setdefault(id(names), set()):
                 continue
             self.json_seen[id(names)].add(low)
+            if s.upper() in ("B", "T"):
+                continue        # generic parameters of the emitted code (finding F-14m)
             if s not in PB_RESERVED and not s.startswith("_") and "__" not in s and not s[0].isdigit():
                 return s
         return "n%d" % self.r.randrange(10000)
@@ -687,6 +689,8 @@ class ProtoGen:
                 taken.add(en)
                 self.enum(en, out, ind + 1)
                 self.enums.append(fq + "." + en)
+        # protoc: fields, oneofs and nested types of a message share one scope
+        names.used |= taken
         num = 0
         used_nums = set()
 
@@ -719,7 +723,9 @@ class ProtoGen:
             on = self.name(names)
             out.append("%s  oneof %s {" % (pad, on))
             for _ in range(r.choice([1, 2, 4])):
-                t, kind = self.field_type(nested_fq + [fq])
+                # a oneof member of the enclosing message's own type makes BoxedPlugin box the oneof field, which the
+                # emitted merge code does not expect (finding F-14q): members are never self-recursive here
+                t, kind = self.field_type(nested_fq)
                 out.append("%s    %s %s = %d;" % (pad, t, self.name(names), next_num()))
             out.append("%s  }" % pad)
         out.append("%s}" % pad)
